@@ -33,6 +33,7 @@ func init() {
 			"(ring-follows-membership) every removal from / addition to the member table in the membership-event handler is paired with the same operation on the consistent-hash ring.",
 		Run: func(r *core.Run) {
 			c13CoordinatorOnly(r)
+			c13TimerRearmed(r)
 			c13VerifyBeforeApply(r)
 			c13CoordinatorIsOldest(r)
 			c13PartitionFormula(r)
